@@ -311,6 +311,9 @@ def gen_net(rng, spec):
     elif r < 0.7:
         net = _add_equivalents(net, rng)
         shape += '+equiv'
+    elif r < 0.85:
+        net = _add_duplicate_towers(net, rng)
+        shape += '+duptowers'
     return shape, net
 
 
@@ -355,6 +358,50 @@ def _pure_unary(net, rng, family):
     outs = list(net.outputs)
     for _ in range(rng.randint(0, 2)):
         outs.append(rng.choice(labels))
+    return refsem.Net(list(net.inputs), outs, g2)
+
+
+def _add_duplicate_towers(net, rng):
+    """Towers of structural duplicates: a clone X' of a gate X (operands permuted when the type is symmetric), then users
+    U1 = T(X, M) and U2 = T(X', M) that become duplicates once X' is merged into X, then users of those ... with labels
+    drawn from a shuffled pool, so that the label order of X, X', M is arbitrary w.r.t. the structure."""
+    sym = ['AND', 'OR', 'XOR', 'NAND', 'NOR', 'NXOR']
+    g2 = dict(net.gates)
+    outs = list(net.outputs)
+    pool = ['g%d' % i for i in range(1, 60)] + ['t%d' % i for i in range(10)] + ['a', 'b', 'z', 'M', 'X', 'Y']
+    pool = [l for l in pool if l not in g2]
+    rng.shuffle(pool)
+    for _ in range(rng.randint(1, 2)):
+        base = [l for l, (t, o) in g2.items() if t != 'INPUT' and len(o) >= 1]
+        if not base or len(pool) < 8:
+            break
+        x = rng.choice(base)
+        t, ops = g2[x]
+        ops2 = list(ops)
+        if t in sym:
+            rng.shuffle(ops2)
+        x2 = pool.pop()
+        g2[x2] = (t, tuple(ops2))
+        level = [(x, x2)]
+        for depth in range(rng.randint(1, 3)):
+            a, b = level[-1]
+            m = rng.choice([l for l in g2 if l not in (a, b)])
+            tt = rng.choice(sym + ['GT', 'LEQ'])
+            u1, u2 = pool.pop(), pool.pop()
+            o1, o2 = [a, m], [b, m]
+            if tt in sym:
+                if rng.random() < 0.5:
+                    o1.reverse()
+                if rng.random() < 0.5:
+                    o2.reverse()
+            elif rng.random() < 0.5:
+                o1.reverse()
+                o2.reverse()
+            g2[u1] = (tt, tuple(o1))
+            g2[u2] = (tt, tuple(o2))
+            level.append((u1, u2))
+        a, b = level[-1]
+        outs += [a, b] if rng.random() < 0.7 else [b]
     return refsem.Net(list(net.inputs), outs, g2)
 
 
